@@ -29,3 +29,5 @@ MUTANTS = [
     dict(name="tag-key-unicode-word-class", file="core/utils.py", expect="R7.7",
          old='return re.sub(r"[^0-9a-zA-Z]+", "", tag).lower()', new='return re.sub(r"[\\W_]+", "", tag).lower()'),
 ]
+MUTANTS.append(dict(name="method-filter-swagger2-verbs-only", file='core/loader/operations/parser.py', expect="R7.8", old='                mu = method.upper()\n                if mu not in HTTPMethod.__members__:\n                    continue\n', new='                mu = method.upper()\n                if mu not in ("GET", "PUT", "POST", "DELETE", "OPTIONS", "HEAD", "PATCH"):\n                    continue\n'))
+MUTANTS.append(dict(name="clean-strategy-path-suffix-not-lowercased", file='core/utils.py', expect="R7.9", old='        normalized_path = re.sub(r"_+", "_", normalized_path).strip("_").lower()\n', new='        normalized_path = re.sub(r"_+", "_", normalized_path).strip("_")\n'))
